@@ -222,7 +222,9 @@ fn client_strategy() -> impl Strategy<Value = ClientSpec> {
     (
         epcfg_strategy(),
         (0u32..100_000, 0u32..100_000),
-        (proptest::collection::vec(hs_fate(), 0..12), proptest::collection::vec(hs_fate(), 0..12)),
+        // (one client in ten: exactly the first nine or ten copies of the server's SYN-ACK are lost, so that the handshake
+        // completes on the very last retransmissions, 18-20 s after the request)
+        (proptest::collection::vec(hs_fate(), 0..12), prop_oneof![9 => proptest::collection::vec(hs_fate(), 0..12), 1 => (9usize..11).prop_map(|n| vec![Fate::Drop; n])]),
         0u16..60,
         0u8..12,
         5u16..3000,
@@ -328,7 +330,7 @@ impl Check for C07 {
     }
 
     fn rule(&self) -> String {
-        "one case in fourteen is a Reconnect history: one address connects, exchanges a packet each way and closes gracefully (either side asks); the server application drops the lingering entry in its Disconnect handler (two cases in three; the same address then connects again 0-19 s later) or leaves it alone (the address comes back after 21-26 s); up to three datagrams of the second handshake are lost; then both applications exchange a Reliable packet every second for 26 s on a loss-free link: exactly one Connect per side for the second handshake, no terminal event, every packet delivered - nothing the first connection left behind (timers, entries) may reset or replace the second. Otherwise: case = World with a real Server and 1-4 (quick) real Clients whose configurations are generated independently (compatible or not; receive allocations and rates of 2^32 and beyond included, which are advertised saturated), each on its own link with per-datagram fates for the handshake frames (delay up to 3 s, drop, duplicate up to 5 s apart, corrupt), starting at generated ticks (simultaneous handshakes), plus late network duplicates of handshake frames that really travelled (never counted as forgeries), clients that call disconnect() right after submitting their last Reliable packet (one in four), clients whose frames are lost for 1-30 s after they connected while a third of the servers time silent peers out after 1.5-4.5 s, and forged handshake / disconnect frames injected at generated moments with spoofed source addresses (a client's address towards the server, the server's address towards a client) carrying random nonces, genuine nonces +-1, the genuine current nonce, or the nonce of an earlier attempt. After Connect each client runs an ordered echo stream through the server, and the server may push a burst of Reliable packets larger than the client's advertised receive allocation. Monitor oracle over wire and events: server Connect(a) only after an ACK from a carrying the nonce of the latest SYN-ACK sent to a was delivered; client Connect only after a SYN-ACK echoing its SYN nonce was delivered; at most one Connect per client and per server-side connection; the server's Connect never precedes the client's, and once a client is connected and frames are delivered promptly the server reports its Connect within three SYN-ACK repeat intervals (as long as its 22 s handshake budget and the client's timeout allow); no server Connect later than the 22 s budget of its handshake (a stale ACK creates nothing, with handshake errors reported or not); first data frame ids equal the advertised nonces; every connection the server reports was completed with the server nonce the client accepted (a connection is never re-created behind a living client's back); refusals carry the error the documented rule demands and the client reports the same error (ServerFull only when the server's limits are below the number of clients: a client is never refused on account of its own pending entry); no Error event on a client that has connected unless it is a Timeout; echo streams arrive in order without gaps for Reliable packets; bytes per second on the wire stay within min(local max_send_rate, peer max_receive_rate); the bytes the server has outstanding towards a client (fragment-rounded, judged from the wire and the acks delivered) never exceed the max_receive_alloc that client advertised. Non-trivial = at least one handshake frame was lost, duplicated, corrupted or forged. Distinct = distinct serialised case.".into()
+        "one case in fourteen is a Reconnect history: one address connects, exchanges a packet each way and closes gracefully (either side asks); the server application drops the lingering entry in its Disconnect handler (two cases in three; the same address then connects again 0-19 s later) or leaves it alone (the address comes back after 21-26 s); up to three datagrams of the second handshake are lost; then both applications exchange a Reliable packet every second for 26 s on a loss-free link: exactly one Connect per side for the second handshake, no terminal event, every packet delivered - nothing the first connection left behind (timers, entries) may reset or replace the second. Otherwise: case = World with a real Server and 1-4 (quick) real Clients whose configurations are generated independently (compatible or not; receive allocations and rates of 2^32 and beyond included, which are advertised saturated), each on its own link with per-datagram fates for the handshake frames (delay up to 3 s, drop, duplicate up to 5 s apart, corrupt), starting at generated ticks (simultaneous handshakes), one client in ten losing exactly the first nine or ten SYN-ACKs, plus late network duplicates of handshake frames that really travelled (never counted as forgeries), clients that call disconnect() right after submitting their last Reliable packet (one in four), clients whose frames are lost for 1-30 s after they connected while a third of the servers time silent peers out after 1.5-4.5 s, and forged handshake / disconnect frames injected at generated moments with spoofed source addresses (a client's address towards the server, the server's address towards a client) carrying random nonces, genuine nonces +-1, the genuine current nonce, or the nonce of an earlier attempt. After Connect each client runs an ordered echo stream through the server, and the server may push a burst of Reliable packets larger than the client's advertised receive allocation. Monitor oracle over wire and events: server Connect(a) only after an ACK from a carrying the nonce of the latest SYN-ACK sent to a was delivered; client Connect only after a SYN-ACK echoing its SYN nonce was delivered; at most one Connect per client and per server-side connection; the server's Connect never precedes the client's, and once a client is connected and frames are delivered promptly the server reports its Connect within three SYN-ACK repeat intervals (as long as its 22 s handshake budget and the client's timeout allow); no server Connect later than the 22 s budget of its handshake (a stale ACK creates nothing, with handshake errors reported or not); first data frame ids equal the advertised nonces; every connection the server reports was completed with the server nonce the client accepted (a connection is never re-created behind a living client's back); refusals carry the error the documented rule demands and the client reports the same error (ServerFull only when the server's limits are below the number of clients: a client is never refused on account of its own pending entry); no Error event on a client that has connected unless it is a Timeout; echo streams arrive in order without gaps for Reliable packets; bytes per second on the wire stay within min(local max_send_rate, peer max_receive_rate); the bytes the server has outstanding towards a client (fragment-rounded, judged from the wire and the acks delivered) never exceed the max_receive_alloc that client advertised. Non-trivial = at least one handshake frame was lost, duplicated, corrupted or forged. Distinct = distinct serialised case.".into()
     }
 
     fn assumptions(&self) -> Vec<String> {
